@@ -6,7 +6,7 @@ the set of errors the receive function can produce, DOM (deregistration only aft
 the loop, on every loop exit).
 """
 from ..core import callee_of, callee_names, is_call_to, unwrap, receiver_root, dominating_edges
-from ..families import produced_errors, display_table, text_may_contain
+from ..families import produced_errors, display_table, text_may_contain, bodies_of_fn
 from ..wire import _sccs
 
 LOOP = 'edp_node::node::Node::spawn_receiver_task::{closure#0}'
@@ -397,6 +397,38 @@ def run(ctx):
                         ctx.where(GB, foreign[0][0]), key='LOCK:%s:table-guard-across-%s' % (q.split('::{')[0], foreign[0][1].rsplit('::', 1)[-1]))
             else:
                 ctx.ok('C19.4-table-guard-scope', inst, 'held across %d await(s): the connection mutex and its send operation only' % len(held), ctx.where(GB, bb))
+
+    # an error raised between the length prefix and the body leaves the body in the stream: going on reading would take its
+    # bytes for frames.  Such an error must be of a kind the receiver loop stops on.
+    ctx.rule('C19.3-sync-after-error', 'every error the split receive function constructs after it has read a length prefix and before it has read that many body bytes is of a kind on which the receiver loop stops: '
+             'continuing would parse the unread body as further frames (and deliver what they happen to spell)', floor=1)
+    n_se = 0
+    for RB in bodies_of_fn(P, RECV):
+        reads = [(bb, t) for bb, t in RB.calls() if any(n.endswith('::read_exact') for n in callee_names(t))]
+        if len(reads) < 2:
+            continue
+        first = [r for r in reads if not any(RB.block_dominates(o[0], r[0]) and o[0] != r[0] for o in reads)]
+        later = [r for r in reads if r not in first]
+        for bb, j, st in RB.stmts():
+            if not (st['k'] == '=' and st['rv']['k'] == 'agg' and st['rv'].get('adt') == CERR):
+                continue
+            v = st['rv']['var']
+            if not any(RB.block_dominates(f[0], bb) for f in first):
+                continue
+            if any(RB.block_dominates(l_[0], bb) for l_ in later):
+                continue
+            n_se += 1
+            inst = '%s#%d' % (v, n_se)
+            does = loop_does(v)
+            where = ctx.where(RB, ln=st['ln'])
+            if does == 'break':
+                ctx.ok('C19.3-sync-after-error', inst, 'Error::%s is raised with the body unread; the loop stops on it' % v, where)
+            elif does == 'either':
+                ctx.undecided('C19.3-sync-after-error', inst, 'Error::%s is raised with the body unread; what the loop does on it is not decided' % v, where)
+            else:
+                ctx.bad('C19.3-sync-after-error', inst, 'Error::%s is raised after the length prefix was read and before the body was: the receiver loop continues on this kind of error and reads the unread body as the next frames'
+                        % v, where, key='EXIT:%s:%s-with-body-unread->continue' % (RECV, v))
+    ctx.anchor(n_se >= 1, 'an error raised between length and body reads in ' + RECV)
 
 
 def _outcomes(L, start, loop, recv_bb):
